@@ -129,4 +129,73 @@ Classify(pre, fill, len, table, own) ==
                                              ELSE (IF chgd THEN SessNoAckChg ELSE SessNoAck) : a \in acks}
             [] OTHER -> none
 
+(* ------------------------------------------------------------ exact tick and frame flow (XTICK) *)
+(* charge counter (beyond the listed properties, "XGLUE"): a Charge frame increments it and (re)starts a 1 s   *)
+(* timeout; the tick that finds the timeout expired - or ends the session for inactivity - resets it to 0     *)
+CtcDue(f, nows) == f.cdl >= 0 /\ nows >= f.cdl
+CtcAfterTick(c, f, nows, ended) == IF ended \/ CtcDue(f, nows) THEN 0 ELSE c
+CdlAfterTick(f, nows, ended) == IF ended \/ CtcDue(f, nows) THEN 0 - 1 ELSE f.cdl
+
+
+RInc(r) == IF r[2] < 65535 THEN << r[1], r[2] + 1 >> ELSE << r[1] + 1, 0 >>
+
+(* ---------------------------------------------------------------- XTICK: the tick, value for value          *)
+(* Beyond the listed properties: automata_tick as a deterministic function of the state the previous event     *)
+(* logged and of the clock - inactivity timer, charge timer, 60 s sweep, table-status update of the           *)
+(* enumeration engine, Hello deadline (send / suppress to last transmit + 1 s / re-arm at                      *)
+(* max(load interval, 1 s)), block end (count formula, r cleared, next block in 300 ms, Hello deadline         *)
+(* re-chosen from the load interval).  Every field the tick leaves behind must equal the model's.             *)
+BlockMs == 300
+MinGapMs == 1000
+LoadInterval(ni) == Max(HelloIntervalMin(ni), 6)            \* at least one frame time (20/3 ms, truncated)
+TickExact(f, now) ==
+  LET nows == now \div 1000
+      fire == f.inact # 0 /\ nows >= f.inact
+      ctc1 == IF fire \/ CtcDue(f, nows) THEN 0 ELSE f.ctc
+      tbl2 == TExpire(IF fire THEN {} ELSE f.live, nows)
+      es1 == IF f.es = 0 THEN 0 ELSE IF tbl2 = {} THEN 0
+             ELSE IF AllComplete(tbl2) THEN EnumNext(f.es, EnumComplete) ELSE EnumNext(f.es, EnumNotComplete)
+      cleared == f.es # 0 /\ tbl2 = {}
+      hto1 == IF cleared THEN 0 - 1 ELSE f.hto
+      bto1 == IF cleared THEN 0 - 1 ELSE f.bto
+      begun1 == IF cleared THEN 0 ELSE f.begun
+      due == es1 = 1 /\ hto1 >= 0 /\ now >= hto1
+      supp == due /\ f.lasttx > 0 /\ now - f.lasttx < MinGapMs
+      send == due /\ ~supp
+      ni0 == f.ni[2]
+      hto2 == IF supp THEN f.lasttx + MinGapMs ELSE IF send THEN now + Max(LoadInterval(ni0), MinGapMs) ELSE hto1
+      begun2 == IF send THEN 1 ELSE begun1
+      es2 == IF send THEN EnumNext(1, EnumHello) ELSE es1
+      blk == es1 = 1 /\ bto1 >= 0 /\ now >= bto1
+      ni3 == IF blk THEN NiNext(ni0, f.r[1], f.r[2], begun2 = 1) ELSE ni0
+  IN [ es |-> es2, live |-> tbl2, ctc |-> ctc1, sent |-> send,
+       hto |-> IF blk THEN now + LoadInterval(ni3) ELSE hto2,
+       bto |-> IF blk THEN now + BlockMs ELSE bto1,
+       lasttx |-> IF send THEN now ELSE f.lasttx,
+       ni |-> << 0, ni3 >>, r |-> IF blk THEN << 0, 0 >> ELSE f.r, begun |-> begun2,
+       inact |-> IF fire THEN 0 ELSE f.inact ]
+
+(* the state a frame of the Darwin flow hands to its closing tick (see AutomataTrace!GlueExactOK): f the state  *)
+(* before the frame, op the opcode, k / gen the session key of a Discover, acking whether the Discover          *)
+(* acknowledged this station, ended whether the mapping engine fell back to idle on this frame                 *)
+FrameExact(f, op, k, gen, acking, ended, now0) ==
+  LET nows0 == now0 \div 1000
+      t1 == CASE op = OpDiscover -> (IF acking THEN TComplete(TAdd(f.live, k, gen, nows0, TableCap), k, gen)
+                                    ELSE TAdd(f.live, k, gen, nows0, TableCap))
+              [] op = OpReset -> {}
+              [] OTHER -> f.live
+      t2 == IF ended THEN {} ELSE t1
+      r1 == IF op = OpHello THEN RInc(f.r) ELSE f.r
+      band == IF op = OpHello
+              THEN [f EXCEPT !.r = r1, !.begun = IF (r1[1] > 0 \/ r1[2] >= GAMMA) THEN 1 ELSE @, !.es = EnumNext(f.es, EnumHello)]
+              ELSE IF op = OpDiscover
+              THEN (IF f.es = 0
+                    THEN [f EXCEPT !.ni = << 0, ALPHA >>, !.r = << 0, 0 >>, !.begun = 0, !.bto = now0 + BlockMs,
+                                   !.hto = now0 + LoadInterval(ALPHA), !.es = EnumNext(0, EnumNewSession)]
+                    ELSE [f EXCEPT !.begun = 1, !.es = EnumNext(f.es, EnumNewSession)])
+              ELSE f
+  IN [band EXCEPT !.live = t2, !.inact = nows0 + 30,
+                  !.ctc = IF op = OpCharge THEN (f.ctc + 1) % 256 ELSE f.ctc,
+                  !.cdl = IF op = OpCharge THEN nows0 + 1 ELSE f.cdl]
+
 =============================================================================
